@@ -261,12 +261,16 @@ class DateTime:
             default=self.default_input_timezone,
         )
 
-        return dates.format_datetime(
-            _parse_datetime(left, input_tzinfo),
-            format=_format,
-            locale=locale,
-            tzinfo=tzinfo,
-        )
+        try:
+            return dates.format_datetime(
+                _parse_datetime(left, input_tzinfo),
+                format=_format,
+                locale=locale,
+                tzinfo=tzinfo,
+            )
+        except OSError as err:
+            # A timestamp the platform can't represent.
+            raise LiquidValueError(str(err), token=None) from err
 
     def _resolve_timezone(
         self,
